@@ -8,6 +8,15 @@
    The loops of the code (`while !end`, the consumer's `for record in reader`) have no
    syntactic bound; the model gives them [fuel] and returns OutOfFuel when it runs out:
    ReaderProofs shows that this never happens with the fuel computed by [run_reader].
+
+   `last` after a line that does not close the record: the source (since /repo 23feb61, the repair
+   of finding F-T1) assigns `last = buffer.len()` in both loops (reader.rs:44,81); the model
+   assigns `length buf'`.  (Until round 3 / wave 2 the source had `last += n` and the model
+   `last + n`: without I/O faults the two are the same function of the stream -- at loop entry
+   `last` is the length of the buffer, FaultProofs.fault_free_agree_any / C15.fault_free_agree.)
+   translate/transfac_reader.py re-reads the assignment on every run (GenReader.
+   reader_last_is_buffer_len); C15.fault_free_agree_current ties this model to the fault model
+   selected by that flag.
    No proofs in this file. *)
 From Coq Require Import List Bool Arith.
 From Coq Require Import Init.Byte.
@@ -59,7 +68,7 @@ Section Reader.
         | (RlOk n, buf', s') =>
             tl <- str_from buf' last ;;
             if starts_with slashes tl then Ok (buf', last, None, s')
-            else new_loop f buf' (last + n) s'
+            else new_loop f buf' (length buf') s'
         end
     end.
 
@@ -84,8 +93,8 @@ Section Reader.
         | (RlOk O, buf', s') => Ok (buf', last, false, s')
         | (RlOk n, buf', s') =>
             tl <- str_from buf' last ;;
-            if starts_with slashes tl then Ok (buf', last + n, false, s')
-            else next_loop f buf' (last + n) s'
+            if starts_with slashes tl then Ok (buf', length buf', false, s')
+            else next_loop f buf' (length buf') s'
         end
     end.
 
